@@ -290,7 +290,7 @@ pub assume_specification [<{q} as PartialEq>::eq] (a: &{q}, b: &{q}) -> (r: bool
     # ---------- functions ----------
     def fn(self, path, impl, fn, requires=(), ensures=(), loops=None, ghost=(), subst=(), trait=None,
            erase_async=False, mut_self=False, ret_name='r', decreases=None, keep_macros=(), external_body=False,
-           let_chains=True, fmt=True, hash_loops=(), vis='pub', recommends=()):
+           let_chains=True, fmt=True, hash_loops=(), vis='pub', recommends=(), trait_full=None):
         """Extract one fn verbatim and splice its contract.  Returns a list of Seg (to be put in an impl block).
         requires/ensures: list of (name, text).  loops: {ordinal: dict(invariant=[(name,text)], decreases=text, iter='vx_it')}
         ghost: list of (anchor, text) with anchor in ('body_start',), ('body_end',), ('loop_start',k), ('loop_end',k),
@@ -300,6 +300,9 @@ pub assume_specification [<{q} as PartialEq>::eq] (a: &{q}, b: &{q}) -> (r: bool
         kw['impl'] = impl
         if trait is not None:
             kw['trait'] = trait
+        if trait_full is not None:
+            kw['trait_full'] = trait_full
+            trait = trait or trait_full
         src, e = find(path, 'fn', **kw)
         fid = f'{self.prop}.{self.name}.{(impl + "::") if impl else ""}{fn}'
         a, b = e['item']
@@ -537,7 +540,7 @@ pub assume_specification [<{q} as PartialEq>::eq] (a: &{q}, b: &{q}) -> (r: bool
                                  'text': 'implicit: callee preconditions, arithmetic overflow, index bounds, unwrap, panic!/unreachable! arms unreachable'}
             clause_list.append(cid)
             self.functions.append({'id': fid, 'path': path, 'impl': impl, 'fn': fn, 'clauses': clause_list,
-                                   'loops': len(e['loops'])})
+                                   'loops': len(e['loops']), 'trait': trait is not None})
         else:
             self.notes.append(f'assumed (external_body) contract on krill fn {fid}')
         self.extracted.append((path, f'fn {(impl + "::") if impl else ""}{fn}' + (' [signature only, body assumed]' if external_body else '')))
@@ -716,7 +719,7 @@ def canary_unit(u, seed=None):
     `ensures false` is emitted (the originals keep their contracts); every copy must FAIL verification.
     A copy that verifies means contradictory requires / assumed specs / loop invariants."""
     text, spans, fnspans = u.assemble()
-    want = [f for f in u.functions if not f.get('lemma') and f['id'] not in u.canary_skip]
+    want = [f for f in u.functions if not f.get('lemma') and not f.get('trait') and f['id'] not in u.canary_skip]
     res_text = text
     made = []
     for f in want:
